@@ -54,6 +54,8 @@ def dec(e: Any, ctx: Optional[dict] = None) -> Any:
         return datetime.date.fromisoformat(e[1])
     if k == 'm':
         return donor(e[1], e[2] if len(e) > 2 else 0, ctx or {})
+    if k == 'a':          # an ATTACHED node (lives in some document): resolved by the caller's context
+        return (ctx or {})['attached'](e)
     raise TypeError(e)
 
 
@@ -101,8 +103,8 @@ DONORS: dict[str, list[Callable[[dict], Any]]] = {
     'Open': [lambda c: _p('2012-12-12 open Assets:Z', M.Open)],
     'Option': [lambda c: _p('option "z" "z"', M.Option)],
     'Number': [lambda c: M.Number.from_value(D(7))],
-    'NumberAddExpr': [lambda c: _p('7', M.NumberAddExpr), lambda c: _p('7 - 8', M.NumberAddExpr)],
-    'NumberMulExpr': [lambda c: _p('7', M.NumberMulExpr)],
+    'NumberAddExpr': [lambda c: _p('7', M.NumberExpr).raw_number_add_expr, lambda c: _p('7 - 8', M.NumberExpr).raw_number_add_expr],
+    'NumberMulExpr': [lambda c: _p('7 * 8', M.NumberExpr).raw_number_add_expr.raw_operands[0]],
     'NumberParenExpr': [lambda c: _p('(7)', M.NumberParenExpr)],
     'NumberUnaryExpr': [lambda c: _p('-7', M.NumberUnaryExpr)],
     'UnaryOp': [lambda c: _p('-7', M.NumberUnaryExpr).raw_unary_op.detach()[0]],
@@ -525,7 +527,7 @@ def _slice(s: list) -> slice:
     return slice(s[0], s[1], s[2])
 
 
-def apply(root: Any, op: list, *, catch: bool = True) -> Applied:
+def apply(root: Any, op: list, *, catch: bool = True, extra: Optional[dict] = None) -> Applied:
     """Resolve the op against the live tree and perform it through the public API."""
     ap = Applied()
     kind = op[0]
@@ -540,6 +542,8 @@ def apply(root: Any, op: list, *, catch: bool = True) -> Applied:
         return ap
     ap.target = m
     ctx = comment_ctx(m) if not isinstance(m, M.RawTokenModel) else {}
+    if extra:
+        ctx.update(extra)
 
     def mk(e: Any) -> Any:
         v = dec(e, ctx)
@@ -611,8 +615,8 @@ def apply(root: Any, op: list, *, catch: bool = True) -> Applied:
                 ap.result = w.pop(key)
             elif meth == 'set':
                 v = mk(op[5])
-                if isinstance(v, M.MetaItem) and key != 'nokey':
-                    v.key = key
+                if isinstance(v, M.MetaItem) and key != 'nokey' and op[5][0] == 'm':
+                    v.key = key       # fresh donors only: never touch a node that lives in a document
                 w[key] = v
             else:
                 raise HarnessError(op)
